@@ -23,6 +23,7 @@ EXPLANATION = ('CFG dominance rules on randomx_calculate_hash/_next/_last in con
 def run(ctx, R):
     F = astq.Facts(ctx, 'K0')
     driver.rule_fpenv(ctx, R, F, 'K0')
+    driver.rule_fpenv(ctx, R, astq.Facts(ctx, 'K1'), 'K1')     # the fenv build (every target without SSE2: AArch64, RISC-V, PPC, generic)
     driver.rule_reset(ctx, R, F, 'K0')
     driver.rule_resetword(ctx, R, F)
     driver.rule_noleak(ctx, R)
